@@ -435,6 +435,15 @@ theorem slice_bound_names (n : Nat) (ctx : Ctx) (env : Env) (x : Name) (c p so a
     simp only [evalE, hx, bind_eq, M.bind, load, hc, dimValue, hp, hs, h1, if_false, rngBounds_ok s ro lf lt a b hr hf ht]
     rfl
 
+/-- **An extent name ignores shadowing of the parameter's NAME.**  `D` of `a[D]` holds a reference to the parameter's
+CELL: whatever is bound later under other names — in particular a `let a = …`, a match binding or a loop variable that
+shadows the parameter's own name `a` — a use of `D` evaluates exactly as before (and, by `extent_name_is_read_at_use`,
+reads the extent of the array in that cell). -/
+theorem extent_name_ignores_shadowing_of_the_parameter_name (n : Nat) (ctx : Ctx) (env : Env) (x pn : Name) (l2 : Loc)
+    (s : St) (hne : x ≠ pn) :
+    evalE (n + 1) ctx ((pn, l2) :: env) (.dimVar x) s = evalE (n + 1) ctx env (.dimVar x) s := by
+  simp only [evalE, lookup, hne, if_false]
+
 /-- **A nil array, range or slice raises `nil_pointer` where one of its names is used** (not at the call; a callee that
 never uses the names runs normally) -/
 theorem name_of_nil_parameter_raises (n : Nat) (ctx : Ctx) (env : Env) (x : Name) (c p : Loc) (k : Nat) (s : St) (v : Val)
@@ -714,6 +723,18 @@ example : (eval { recs := [], enums := [], funcs := [
 example : (eval { recs := [], enums := [], funcs := [
     .mk 0 "d" [{ name := "a", ty := .arr, dims := ["D"] }] .int (i 7) [.mk (some .nil_pointer) (.un .neg (i 3))],
     .mk 1 "main" [] .int (.call (.var "d") [.index (.arrNew [i 2] .arr) [i 0]]) []] } [] 30).int? = some 7 := by decide +kernel
+/-- `func f(k[cnt] : int) -> int { let k = 7; cnt }` applied to a 4-element array is 4: the `let k` does not change what
+`cnt` reads (`extent_name_ignores_shadowing_of_the_parameter_name`); `[cnt, 0] : int` holds the int 4 -/
+example : (eval { recs := [], enums := [], funcs := [
+    .mk 0 "f" [{ name := "k", ty := .arr, dims := ["cnt"] }] .int (.seq [.bind false "k" (i 7), .expr (.dimVar "cnt")]) [],
+    .mk 1 "main" [] .int (.call (.var "f") [arr4]) []] } [] 30).int? = some 4 := by decide +kernel
+example : (eval { recs := [], enums := [], funcs := [
+    .mk 0 "f" [{ name := "k", ty := .arr, dims := ["cnt"] }] .int
+      (.seq [.bind false "k" (i 7), .bind true "v" (.arrLit [2] [.dimVar "cnt", i 0] .int),
+        .expr (.assign (.index (.var "v") [i 1]) (i 5)), .expr (.bin .add (.index (.var "v") [i 0]) (.index (.var "v") [i 1]))]) [],
+    .mk 1 "main" [] .int (.call (.var "f") [arr4]) []] } [] 30).int? = some 9 := by decide +kernel
+example : evalE 1 {} [("k", 0), ("D", 13)] (.dimVar "D") stP = evalE 1 {} [("D", 13)] (.dimVar "D") stP :=
+  extent_name_ignores_shadowing_of_the_parameter_name 0 {} _ "D" "k" 0 stP (by decide)
 /-- the hypotheses of `comprehension_over_range_denotation` on a concrete store: cell 0 holds `to` = 1, cell 1 is the empty
 array object; from = 3: three new cells 2, 3, 4 hold 3, 2, 1 and the array object lists them -/
 private def stC : St := { mem := #[.int 1, .arrObj [0] #[]] }
